@@ -10,6 +10,7 @@ package litestream
 
 import (
 	"context"
+	"os"
 
 	"github.com/benbjohnson/litestream/internal/vx"
 	"github.com/superfly/ltx"
@@ -35,8 +36,15 @@ func vxGenHistory(maxR int) *vxHistory {
 	h.u = vx.Choose("unseen", 0, 2)
 	h.r = vx.Choose("restarts", 0, maxR)
 	g0 := vxGen{salt1: 100, salt2: uint32(vx.Range("salt0", 0, 1<<31-1))}
+	// the unseen frames are one or two single-frame transactions, or one two-frame
+	// transaction (only its last frame carries the commit mark)
+	multi := h.u == 2 && vx.Fault("twoFrameTx")
 	for i := 0; i < h.c+h.u; i++ {
-		g0.frames = append(g0.frames, vxFrame{pgno: uint32(vx.Range("pg", 1, 3)), commit: 3, tag: vx.U64("tag")})
+		commit := uint32(3)
+		if multi && i == h.c {
+			commit = 0
+		}
+		g0.frames = append(g0.frames, vxFrame{pgno: uint32(vx.Range("pg", 1, 3)), commit: commit, tag: vx.U64("tag")})
 	}
 	h.gens = []vxGen{g0}
 	h.n[0] = h.c + h.u
@@ -63,6 +71,23 @@ func vxGenHistory(maxR int) *vxHistory {
 	return h
 }
 
+// states returns the page images (pages 1..3) of: the database file (E-WAL: every
+// generation but the newest was fully backfilled before the WAL was restarted),
+// the replica at the replicated position, and the source as the application sees
+// it (database file + the newest generation, every frame a committed transaction).
+func (h *vxHistory) states() (dbFile, replicated, source [3]uint64) {
+	base := [3]uint64{1, 2, 3}
+	dbFile = base
+	for g := 0; g < len(h.gens)-1; g++ {
+		vxApplyFrames(&dbFile, h.gens[g].frames)
+	}
+	replicated = base
+	vxApplyFrames(&replicated, h.gens[0].frames[:h.c])
+	source = dbFile
+	vxApplyFrames(&source, h.gens[len(h.gens)-1].frames)
+	return
+}
+
 func (h *vxHistory) walImage() []byte {
 	if h.trunc {
 		return vxWALImageOf(vxPageSize, h.gens[len(h.gens)-1:])
@@ -76,7 +101,8 @@ func (h *vxHistory) walImage() []byte {
 func vxContinuityDB(h *vxHistory) (*DB, ltx.TXID) {
 	dir := vx.TempDir()
 	path := dir + "/app.db"
-	vx.FSWriteFile(path, vxDBFile(vxPageSize, []uint64{1, 2, 3}))
+	dbFile, _, _ := h.states()
+	vx.FSWriteFile(path, vxDBFile(vxPageSize, dbFile[:]))
 	vx.FSWriteFile(path+"-wal", h.walImage())
 	db := NewDB(path)
 	db.pageSize = vxPageSize
@@ -119,6 +145,73 @@ func vxCheckContinuity(h *vxHistory, info syncInfo, err error) {
 	vx.Assert("incremental-resumes-where-replication-stopped", vx.And(info.offset == h.resume, vx.And(info.salt1 == h.s1, info.salt2 == h.s2)))
 }
 
+// vxCheckRound runs the real DB.sync with verify's answer and holds the file it
+// publishes against ground truth: whatever verify decided, the replica after this
+// round (the replicated state overlaid with the new file; a snapshot must hold
+// every page) is the source database. A second, idle round (real verify + sync on
+// what the first one left behind) must not disturb that.
+func vxCheckRound(h *vxHistory, db *DB, pos ltx.TXID, exec *syncExecutor, info syncInfo) {
+	if !info.snapshotting && h.lost {
+		return // already reported by the continuity assertion
+	}
+	f, err := os.Open(db.Path())
+	if err != nil {
+		panic(err)
+	}
+	db.f = f
+	defer f.Close()
+	ctx := context.Background()
+	res, err := db.syncReal(ctx, false, exec, info, 0)
+	if err != nil {
+		return // loud failure: nothing is acknowledged
+	}
+	_, replica, source := h.states()
+	overlay := func(txid ltx.TXID, full bool) bool {
+		got, derr := vxDecodeLTX(vx.FSReadFile(db.LTXPath(0, txid, txid)))
+		vx.Assert("round-file-decodes", derr == nil)
+		if derr != nil {
+			return false
+		}
+		if full {
+			vx.Assert("snapshot-holds-every-page", len(got.pages) == 3)
+		}
+		for _, p := range got.pages {
+			for i := uint32(0); i < 3; i++ {
+				replica[i] = vx.IteU64(p.pgno == i+1, p.tag, replica[i])
+			}
+		}
+		return true
+	}
+	next := pos
+	if res.synced {
+		next = pos + 1
+		if !overlay(next, info.snapshotting) {
+			return
+		}
+	}
+	for i := 0; i < 3; i++ {
+		vx.Assert("next-sync-brings-replica-to-source", replica[i] == source[i])
+	}
+	if vx.Param("ROUND2", 1) == 0 {
+		return
+	}
+	// idle second round
+	db.applySyncResult(&exec.state, res)
+	exec.pos = ltx.Pos{TXID: next}
+	res2, err := db.verifyAndSyncWithExecutorReal(ctx, false, exec, 0)
+	if err != nil {
+		return
+	}
+	if res2.synced {
+		if !overlay(next+1, false) {
+			return
+		}
+	}
+	for i := 0; i < 3; i++ {
+		vx.Assert("idle-round-keeps-replica-at-source", replica[i] == source[i])
+	}
+}
+
 // VxC04Fresh: a new process (no remembered sync state) after arbitrary activity.
 func VxC04Fresh() {
 	h := vxGenHistory(2)
@@ -126,6 +219,9 @@ func VxC04Fresh() {
 	exec := &syncExecutor{pos: ltx.Pos{TXID: pos}}
 	info, err := db.verifyWithExecutor(context.Background(), exec)
 	vxCheckContinuity(h, info, err)
+	if err == nil && vx.Param("ROUND", 1) == 1 {
+		vxCheckRound(h, db, pos, exec, info)
+	}
 }
 
 // VxC04SameProcess: the process that synced last is still running (it held its
@@ -146,6 +242,9 @@ func VxC04SameProcess() {
 	vx.Assume(!(exec.state.syncedToWALEnd && h.u > 0 && h.r >= 1))
 	info, err := db.verifyWithExecutor(context.Background(), exec)
 	vxCheckContinuity(h, info, err)
+	if err == nil && vx.Param("ROUND", 1) == 1 {
+		vxCheckRound(h, db, pos, exec, info)
+	}
 }
 
 // VxC04Reset: the local state directory is reset (auto-recovery at run time, or
@@ -189,6 +288,51 @@ func VxC04Reset() {
 	vx.Assert("success-means-the-new-snapshot-is-stored", !res.limited && c.data[vxKey(0, next, next)] != nil)
 	vx.Assert("new-snapshot-lies-above-the-old-chain", next > ltx.TXID(n))
 	_ = local
+}
+
+// VxC04ResetContinuity: the local state directory is reset while the process keeps
+// running (auto-recovery) after it had synced further than the replica holds. The
+// real ResetLocalState fetches the replica's newest file as the new baseline; what
+// the process remembered about the WAL (synced offset, "synced to the end") was
+// measured against the files just thrown away. The next round runs through the
+// real verify + sync with whatever state the real reset leaves behind: frames the
+// replica never received ("unseen" here) must not be skipped, whatever happened
+// to the WAL in between.
+func VxC04ResetContinuity() {
+	h := vxGenHistory(2)
+	db, pos := vxContinuityDB(h)
+	c := &vxStoreClient{}
+	c.data = map[[3]uint64][]byte{}
+	for _, t := range []ltx.TXID{1, pos} {
+		b := vx.FSReadFile(db.LTXPath(0, t, t))
+		c.data[vxKey(0, t, t)] = b
+		c.files = append(c.files, &ltx.FileInfo{Level: 0, MinTXID: t, MaxTXID: t, Size: int64(len(b))})
+	}
+	// what was synced locally beyond the replica: one more level-0 file (its content
+	// does not matter, the reset removes it)
+	vx.FSWriteFile(db.LTXPath(0, pos+1, pos+1), vx.FSReadFile(db.LTXPath(0, pos, pos)))
+	r := NewReplicaWithClient(db, c)
+	db.Replica = r
+	// the session's memory of the WAL before the reset: it had synced up to some
+	// frame boundary (here: everything generation 0 held) and possibly to the very
+	// end of the file
+	db.syncState.lastSyncedWALOffset = WALHeaderSize + int64(h.c+h.u)*vxFS
+	db.syncState.syncedToWALEnd = vx.Fault("syncedToEnd")
+	ctx := context.Background()
+	if err := db.ResetLocalState(ctx); err != nil {
+		return // loud
+	}
+	p, err := db.Pos()
+	if err != nil {
+		return
+	}
+	vx.Assert("baseline-is-the-replica-position", p.TXID == pos)
+	exec := &syncExecutor{state: db.syncState, pos: p}
+	info, err := db.verifyWithExecutor(ctx, exec)
+	vxCheckContinuity(h, info, err)
+	if err == nil && vx.Param("ROUND", 1) == 1 {
+		vxCheckRound(h, db, pos, exec, info)
+	}
 }
 
 // VxC04Reopened: the same DB object was closed and opened again (stop/start over
